@@ -2,6 +2,7 @@
 import OnosVerif.Base.Wire
 import OnosVerif.Tree.Model
 import OnosVerif.Tree.Flatten
+import OnosVerif.Tree.Elems
 import OnosVerif.Tree.Chunks
 
 namespace OnosVerif.Tree
@@ -83,6 +84,14 @@ def handle (op : String) (args : List String) : Option String :=
     match buildTree rfc List.reverse pvs with
     | .ok j => pure ("ok " ++ encJson j)
     | .error e => pure (encErr e)
+  | "buildelems2", rfc :: pvs | "buildelems3", rfc :: pvs => do
+    -- the element-level twin (well-formed path text only)
+    let rfc ← decFlag rfc
+    let pvs ← pvs.mapM decPV
+    match buildTreeE rfc id pvs with
+    | none => pure "unparseable"
+    | some (.ok j) => pure ("ok " ++ encJson j)
+    | some (.error e) => pure (encErr e)
   | "prune2", lt :: pvs | "prune3", lt :: pvs => do
     let lt ← decFlag lt
     let pvs ← pvs.mapM decPV
